@@ -433,6 +433,97 @@ def run_traces(ctx):
     ctx.count("element_traces_validated", len(traces))
 
 
+def qsnap2(x):
+    """floor(2x) after snapping 2x to the nearest integer when it is within 1e-3 of it, so that float noise of
+    an interpolated read can neither break monotonicity nor push an in-bounds value over a half-frame boundary"""
+    x = float(x)
+    if x != x or math.isinf(x):
+        return -BIG
+    y = 2 * x
+    if abs(y - round(y)) < 1e-3:
+        y = float(round(y))
+    return max(-BIG, min(BIG, math.floor(y)))
+
+
+ENTRY_POINTS = ("SpecAugment.__call__", "SpecAugment.draw+apply", "functional.spec_augment", "functional.draw+apply")
+
+
+def run_observed_grids(ctx):
+    """The linear time warp as OBSERVED through every entry point: features are a ramp (value = frame index + 1,
+    continued through the padding), so with masks off each output value reveals the source position the warp
+    read; its half-frame quantisation over the valid frames goes through the same Grid action of the trace spec
+    (non-decreasing, pinned within half a frame at both ends of the VALID frames)."""
+    from pydrobert.torch import functional as Fn
+    from pydrobert.torch import modules as M
+
+    traces, meta = [], []
+    ncfg = 0
+    for tw in ([0.5, 1.0, 2.5, 10.0] if ctx.quick else [0.5, 1.0, 1.5, 2.5, 4.0, 10.0]):
+        c = dict(max_time_warp=tw, max_freq_warp=0.0, max_time_mask=0, max_freq_mask=0, max_time_mask_proportion=0.0,
+                 num_time_mask=0, num_time_mask_proportion=0.0, num_freq_mask=0, interpolation_order=1)
+        for rep in range(6 if ctx.quick else 20):
+            ncfg += 1
+            N = ctx.rng.choice((1, 2, 3))
+            T = ctx.rng.choice((3, 4, 5, 7, 9))
+            F = ctx.rng.choice((1, 2))
+            lens_list = [ctx.rng.randint(2, T) for _ in range(N)]
+            if rep % 4 == 3:
+                lens_list = [T] * N
+            lens = torch.tensor(lens_list)
+            feats = (torch.arange(T, dtype=torch.float32) + 1).view(1, T, 1).expand(N, T, F).contiguous()
+            for ep in ENTRY_POINTS:
+                seed = ctx.rng.randrange(1 << 30)
+                torch.manual_seed(seed)
+                call = dict(cfg=c, N=N, T=T, F=F, lens=lens_list, seed=seed, entry_point=ep)
+                try:
+                    if ep == "SpecAugment.__call__":
+                        m = M.SpecAugment(**c)
+                        m.train()
+                        out = quiet(m, feats, lens)
+                    elif ep == "SpecAugment.draw+apply":
+                        m = M.SpecAugment(**c)
+                        m.train()
+                        out = quiet(m.apply_parameters, feats, quiet(m.draw_parameters, feats, lens), lens)
+                    elif ep == "functional.spec_augment":
+                        out = quiet(Fn.spec_augment, feats, c["max_time_warp"], c["max_freq_warp"], c["max_time_mask"],
+                                    c["max_freq_mask"], c["max_time_mask_proportion"], c["num_time_mask"],
+                                    c["num_time_mask_proportion"], c["num_freq_mask"], 1, lens, True)
+                    else:
+                        params = quiet(Fn.spec_augment_draw_parameters, feats, c["max_time_warp"], c["max_freq_warp"],
+                                       c["max_time_mask"], c["max_freq_mask"], c["max_time_mask_proportion"], c["num_time_mask"],
+                                       c["num_time_mask_proportion"], c["num_freq_mask"], lens)
+                        out = quiet(Fn.spec_augment_apply_parameters, feats, params, 1, lens)
+                except Exception as ex:
+                    _viol(ctx, dict(site=ep, kind="exception", exc=type(ex).__name__), "raised %s: %s" % (type(ex).__name__, ex),
+                          dict(type="observed_grid", call=call))
+                    continue
+                if tuple(out.shape) != (N, T, F):
+                    _viol(ctx, dict(site=ep, kind="output_shape"), "output shape %r for input %r" % (tuple(out.shape), (N, T, F)),
+                          dict(type="observed_grid", call=call))
+                    continue
+                for n in range(N):
+                    L = lens_list[n]
+                    pos = (out[n, :L, 0].double() - 1).tolist()
+                    t = dict(cfg=spec_cfg(c), T=T, F=F, len=L, shape=[N, T, F], elem=n, tid=len(traces),
+                             ev=[dict(a="Grid", axis="time", q=[qsnap2(x) for x in pos])], raw=dict(time=None, freq=None))
+                    traces.append(t)
+                    meta.append((call, pos))
+    if not traces:
+        return
+    accepted, upto = validate(ctx, traces, "SpecAugmentTrace/observed_grid")
+    for t, (call, pos) in zip(traces, meta):
+        ctx.case(key=("observed_grid", call["entry_point"], json.dumps(call["cfg"], sort_keys=True), t["T"], t["len"], call["seed"], t["elem"]),
+                 nontrivial=any(abs(p - i) > 0.25 for i, p in enumerate(pos)))
+        if t["tid"] in accepted:
+            continue
+        _viol(ctx, dict(site=call["entry_point"], kind="observed_linear_warp_grid"),
+              "through %s the linear time warp read the valid frames (length %d of %d) at source positions %r: not non-decreasing or not "
+              "beginning/ending within half a frame of the first/last valid frame" % (call["entry_point"], t["len"], t["T"], [round(p, 3) for p in pos]),
+              dict(type="observed_grid", call=call, elem=t["elem"], positions=pos))
+    ctx.traces += len(traces)
+    ctx.count("observed_grid_traces_validated", len(traces))
+
+
 def selftest(ctx):
     """binding self-test: corrupted traces must be rejected at the corrupted event"""
     base = dict(cfg=dict(mtw2=2, mfw2=0, mtm=3, mfm=1, p4=2, ntm=2, q4=4, nfm=1), T=4, F=2, len=4, shape=[1, 4, 2])
@@ -495,6 +586,7 @@ def run(ctx):
     selftest(ctx)
     run_apply(ctx, res.records)
     run_traces(ctx)
+    run_observed_grids(ctx)
     # the mask applications are enumerated completely; the recorded draws are a grid of configurations
     # with seeded / stubbed randomness
     ctx.exhaustive = False
@@ -503,6 +595,9 @@ def run(ctx):
 
 
 def replay(ctx, case):
+    if case.get("type") == "observed_grid":
+        print("observed-grid case; re-run the check to reproduce:", case.get("call"))
+        return
     if case["type"] == "apply":
         check_apply_group(ctx, case["recs"], "replay", case["variant"])
         print("replay apply: %s" % ("still differs" if ctx.violations else "ok"))
